@@ -5,7 +5,8 @@
 EXTENDS FromConfigR, TLC, Json, IOUtils
 Fields == {"sleeptime", "jitter", "useragent", "pairs", "submit", "verb_get", "verb_post", "get_prog", "post_prog", "recover", "spawnto_x86", "spawnto_x64",
            "perms_i", "perms", "minalloc", "tx86", "tx64", "exec", "allocator", "dns_beacon", "dns_get_a", "dns_get_txt", "dns_put_output", "dns_idle",
-           "dns_sleep", "maxdns", "cleanup", "sleep_mask", "data_store_size", "gate", "data_required"}
+           "dns_sleep", "maxdns", "cleanup", "sleep_mask", "data_store_size", "gate", "data_required",
+           "tcp_frame", "smb_frame", "dns_get_aaaa", "dns_put_metadata", "bof_reuse", "bof_allocator", "passive"}
 S(o, a) == [op |-> o, arg |-> a]
 Ex(c, o, m, f) == [code |-> c, off |-> o, mod |-> m, fn |-> f, pad |-> 0]
 \* byte strings with the characters that need care in a profile: quote, backslash, apostrophe, LF, NUL, 0xFF
@@ -25,7 +26,9 @@ Items == <<
   [dns_beacon |-> <<98, 46>>, dns_get_a |-> <<97, 46>>, dns_get_txt |-> <<116, 46>>, dns_put_output |-> <<111, 46>>, dns_idle |-> <<19, 7, 91, 241>>, dns_sleep |-> 5, maxdns |-> 251],
   [cleanup |-> 1, sleep_mask |-> 1, data_store_size |-> 16],
   [gate |-> [i \in 1..23 |-> IF i \in {1, 2, 5, 23} THEN 1 ELSE 0]],
-  [data_required |-> 1, recover |-> <<S("PRINT", 0)>>] >>
+  [data_required |-> 1, recover |-> <<S("PRINT", 0)>>],
+  [tcp_frame |-> <<128, 0, 39, 92, 39>>, smb_frame |-> <<65, 66, 34, 67, 92>>, dns_get_aaaa |-> <<54, 46>>, dns_put_metadata |-> <<109, 46>>, bof_reuse |-> 1, bof_allocator |-> 2],
+  [passive |-> 1] >>
 N == Len(Items)
 Has(sub, f) == \E i \in sub : f \in DOMAIN Items[i]
 Pick(sub, f) == Items[Max({ i \in sub : f \in DOMAIN Items[i] })][f]
